@@ -28,7 +28,7 @@
                               save restarts into the previously saved state or the current one
      C19_restart_wf, C19_restart_fresh_version
                               the restarted database is a well-formed keyspace (PropC06.wf_db)        *)
-From RE Require Import Base Resp State Exec Exec2 Bits Dispatch Lemmas Persist PropC06.
+From RE Require Import Base Resp State Exec Exec2 Bits Lcs Sort Fnum Dispatch Lemmas Persist PropC06.
 From Coq Require Import String List ZArith NArith Lia Bool.
 Import ListNotations.
 Open Scope string_scope.
@@ -375,6 +375,14 @@ Lemma cmd_bitop_d : dcmd cmd_bitop.
 Proof. unfold dcmd, cmd_bitop. dres_cmd. Qed.
 Lemma cmd_bitfield_d ro : dcmd (cmd_bitfield ro).
 Proof. unfold dcmd, cmd_bitfield. dres_cmd. Qed.
+Lemma cmd_lcs_d : dcmd cmd_lcs.
+Proof. unfold dcmd, cmd_lcs. dres_cmd. Qed.
+Lemma cmd_sort_d : dcmd cmd_sort.
+Proof. unfold dcmd, cmd_sort. dres_cmd. Qed.
+Lemma cmd_incrbyfloat_d : dcmd cmd_incrbyfloat.
+Proof. unfold dcmd, cmd_incrbyfloat. dres_cmd. Qed.
+Lemma cmd_hincrbyfloat_d : dcmd cmd_hincrbyfloat.
+Proof. unfold dcmd, cmd_hincrbyfloat. dres_cmd. Qed.
 
 #[export] Hint Resolve cmd_set_d cmd_setnx_d cmd_setex_d cmd_get_d cmd_getset_d cmd_getdel_d
   cmd_getex_d cmd_append_d cmd_strlen_d cmd_getrange_d cmd_setrange_d cmd_incr_d cmd_incrby_d
@@ -386,7 +394,7 @@ Proof. unfold dcmd, cmd_bitfield. dres_cmd. Qed.
   cmd_sscan_d cmd_setop_d cmd_setop_store_d cmd_sintercard_d cmd_del_d cmd_exists_d cmd_touch_d
   cmd_type_d cmd_rename_d cmd_copy_d cmd_keys_d cmd_randomkey_d cmd_dbsize_d cmd_scan_d
   cmd_expire_d cmd_ttl_d cmd_persist_d cmd_setbit_d cmd_getbit_d cmd_bitcount_d cmd_bitpos_d
-  cmd_bitop_d cmd_bitfield_d : c19tab.
+  cmd_bitop_d cmd_bitfield_d cmd_lcs_d cmd_sort_d cmd_incrbyfloat_d cmd_hincrbyfloat_d : c19tab.
 
 Lemma table_dirty : Forall (fun x : cmd * option vtype => dcmd (fst x)) table.
 Proof.
@@ -426,6 +434,20 @@ Example C19_dirty_ex :
     fst (f5 5 d0 [s2b "l"]) = d0
   | _, _, _, _, _ => False
   end.
+Proof. vm_compute. repeat split; reflexivity. Qed.
+
+(* SORT ... STORE and INCRBYFLOAT / HINCRBYFLOAT on a clean database raise the flag; SORT without
+   STORE and LCS return the same record *)
+Example C19_dirty_sort_ex :
+  let d0 := clean (fst (cmd_hset 0 0 (fst (cmd_set 0
+                   (fst (cmd_push false false 0 empty_db [s2b "l"; s2b "b"; s2b "a"]))
+                   [s2b "s"; s2b "1.5"])) [s2b "h"; s2b "f"; s2b "2"])) in
+  d_dirty d0 = false /\
+  d_dirty (fst (cmd_sort 5 d0 [s2b "l"; s2b "ALPHA"; s2b "STORE"; s2b "dst"])) = true /\
+  d_dirty (fst (cmd_incrbyfloat 5 d0 [s2b "s"; s2b "1"])) = true /\
+  d_dirty (fst (cmd_hincrbyfloat 5 d0 [s2b "h"; s2b "f"; s2b "0.5"])) = true /\
+  fst (cmd_sort 5 d0 [s2b "l"; s2b "ALPHA"]) = d0 /\
+  fst (cmd_lcs 5 d0 [s2b "s"; s2b "s"]) = d0.
 Proof. vm_compute. repeat split; reflexivity. Qed.
 
 (* ================================================================== *)
